@@ -52,7 +52,9 @@ type Run struct {
 	events  []Event
 	ctxs    map[int]*ctxRec
 	notes   []string
-	conc    bool // concurrent mode: constructor scope is taken from the scope-id argument
+	buildCancel context.CancelFunc
+	slowClose   bool
+	sharedMods  map[int][]godi.ModuleOption
 }
 
 var theRun *Run
@@ -97,6 +99,11 @@ func (r *Run) onClose(o *Obj) error {
 		own = 7007
 	}
 	r.events = append(r.events, Event{Kind: "closed", Inst: &in, Ok: !fail, Owner: own})
+	if r.slowClose {
+		r.mu.Unlock()
+		time.Sleep(150 * time.Microsecond)
+		r.mu.Lock()
+	}
 	if fail {
 		return fmt.Errorf("scripted close error of %d/%d/%d", o.Rid, o.Inv, o.Out)
 	}
@@ -113,6 +120,8 @@ func effectiveOutcome(reg *Reg, inv int) int {
 		o = reg.Script[inv]
 	}
 	switch o {
+	case OCancel:
+		return OOk
 	case OErr:
 		if !hasErr(reg) {
 			return OOk
@@ -321,6 +330,13 @@ func (r *Run) ctorBody(reg *Reg, fnType reflect.Type, args []reflect.Value) []re
 	}
 	outcome := effectiveOutcome(reg, inv)
 	r.events = append(r.events, Event{Kind: "ctor", Rid: reg.ID, Inv: inv, Args: avals, Outcome: outcome})
+	if inv < len(reg.Script) && reg.Script[inv] == OCancel {
+		// cancel the context of the Build in progress (no effect outside Build)
+		r.events = append(r.events, Event{Kind: "cancel"})
+		if r.buildCancel != nil {
+			r.buildCancel()
+		}
+	}
 	r.mu.Unlock()
 
 	outs := make([]reflect.Value, fnType.NumOut())
@@ -489,6 +505,21 @@ func (r *Run) moduleOption(m Module) godi.ModuleOption {
 		}
 		return func(c godi.Collection) error { c.RemoveKeyed(t, k); return nil }
 	case "module":
+		if m.Shared > 0 {
+			// several modules defined from one entry list: the very same slice is handed to NewModule each time
+			if r.sharedMods == nil {
+				r.sharedMods = map[int][]godi.ModuleOption{}
+			}
+			subs, ok := r.sharedMods[m.Shared]
+			if !ok {
+				subs = make([]godi.ModuleOption, len(m.Mods))
+				for i, sm := range m.Mods {
+					subs[i] = r.moduleOption(sm)
+				}
+				r.sharedMods[m.Shared] = subs
+			}
+			return godi.NewModule("m"+strconv.Itoa(m.Name), subs...)
+		}
 		subs := make([]godi.ModuleOption, len(m.Mods))
 		for i, sm := range m.Mods {
 			subs[i] = r.moduleOption(sm)
@@ -563,6 +594,8 @@ func (r *Run) classify(err error) Result {
 		return res
 	}
 	switch {
+	case errors.Is(err, context.Canceled) || errors.Is(err, context.DeadlineExceeded):
+		res.Class = "ECancelled"
 	case errors.Is(err, godi.ErrServiceNotFound):
 		res.Class = "ENotFound"
 	case errors.Is(err, godi.ErrScopeDisposed):
@@ -630,44 +663,40 @@ func (r *Run) explicitCtx(c int) context.Context {
 // singleton construction order = merge of the order in which singleton constructors ran and the
 // order of the provider's disposables (both are subsequences of the creation order)
 func mergeOrder(a, b []int) []int {
-	in := func(x int, l []int) bool {
-		for _, y := range l {
-			if x == y {
-				return true
-			}
-		}
-		return false
+	inA := map[int]bool{}
+	for _, x := range a {
+		inA[x] = true
 	}
 	var out []int
 	i, j := 0, 0
-	for i < len(a) || j < len(b) {
-		switch {
-		case j < len(b) && !in(b[j], a[i:]):
-			if !in(b[j], out) {
-				out = append(out, b[j])
-			}
+	for {
+		// what only the disposables list knows about (instance values) goes as early as its place in that list allows
+		for j < len(b) && !inA[b[j]] {
+			out = append(out, b[j])
 			j++
-		case i < len(a) && !in(a[i], b[j:]):
-			if !in(a[i], out) {
-				out = append(out, a[i])
-			}
-			i++
-		case i < len(a) && j < len(b) && a[i] == b[j]:
-			if !in(a[i], out) {
-				out = append(out, a[i])
-			}
-			i++
-			j++
-		case i < len(a):
-			if !in(a[i], out) {
-				out = append(out, a[i])
-			}
-			i++
-		default:
+		}
+		if i >= len(a) {
+			break
+		}
+		x := a[i]
+		out = append(out, x)
+		i++
+		if j < len(b) && b[j] == x {
 			j++
 		}
 	}
+	for ; j < len(b); j++ {
+		if !inA[b[j]] {
+			out = append(out, b[j])
+		}
+	}
 	return out
+}
+
+// buildOrder: the oracle handed to the model. When a registration was constructed more than once in one
+// Build (the same registration added to a group twice) the constructor order is used as it is.
+func buildOrder(ctorOrd, dispOrd []int) []int {
+	return mergeOrder(ctorOrd, dedupInts(dispOrd))
 }
 
 func dedupInts(l []int) []int {
@@ -790,7 +819,11 @@ func (r *Run) exec(op *Op) (res Result) {
 		pr := &provRec{scopes: []godi.Scope{nil}, scopeCtx: []int{0}, idToHandle: map[string]int{"s1": 0}, newScopes: 1}
 		r.cur, r.curH = pr, 0
 		start := len(r.events)
-		p, err := r.coll.Build()
+		bctx, bcancel := context.WithCancel(context.Background())
+		r.buildCancel = bcancel
+		p, err := r.coll.BuildWithContext(bctx)
+		r.buildCancel = nil
+		defer bcancel()
 		evs := r.events[start:]
 		var ctorOrd, dispOrd []int
 		for _, e := range evs {
@@ -806,7 +839,7 @@ func (r *Run) exec(op *Op) (res Result) {
 					dispOrd = append(dispOrd, e.Inst.Rid)
 				}
 			}
-			op.Ord = mergeOrder(dedupInts(ctorOrd), dedupInts(dispOrd))
+			op.Ord = buildOrder(ctorOrd, dispOrd)
 			r.cur = nil
 			if ce, ok := asVal[godi.CircularDependencyError](err); ok {
 				var path []PathNode
@@ -822,7 +855,7 @@ func (r *Run) exec(op *Op) (res Result) {
 				dispOrd = append(dispOrd, in.Rid)
 			}
 		}
-		op.Ord = mergeOrder(dedupInts(ctorOrd), dedupInts(dispOrd))
+		op.Ord = buildOrder(ctorOrd, dispOrd)
 		pr.p = p
 		r.provs = append(r.provs, pr)
 		return Result{Kind: "count", N: len(r.provs) - 1}
@@ -941,6 +974,33 @@ func (r *Run) exec(op *Op) (res Result) {
 		}
 		op.Ord = r.closeOrder(r.events[start:])
 		return Result{Kind: "unit"}
+	case "stats":
+		pr := r.prov(op.P)
+		if pr == nil {
+			return Result{Kind: "err", Class: "EOther", Mods: []int{98}}
+		}
+		nz := func(n int) int {
+			if n < 0 {
+				return 999
+			}
+			return n
+		}
+		res := Result{Kind: "stats", N: nz(godi.VerifScopeCount(pr.p))}
+		for h := range pr.scopes {
+			var sc godi.Scope
+			if h == 0 {
+				sc = godi.VerifRootScope(pr.p)
+			} else {
+				sc = pr.scopes[h]
+			}
+			if sc == nil {
+				res.Stats = append(res.Stats, [3]int{999, 999, 0})
+				continue
+			}
+			kids := nz(godi.VerifChildCount(sc))
+			res.Stats = append(res.Stats, [3]int{kids, nz(godi.VerifCacheLen(sc)), nz(godi.VerifDisposableCount(sc))})
+		}
+		return res
 	case "ctxvalue":
 		pr := r.prov(op.P)
 		if pr == nil || op.H >= len(pr.scopes) {
@@ -981,6 +1041,7 @@ func (r *Run) exec(op *Op) (res Result) {
 // runCase executes the operations of a case in order on a fresh world.
 func runCase(c *Case) {
 	r := newRun()
+	r.slowClose = c.SlowClose
 	flatFailed := false
 	kept := c.Ops[:0:0]
 	for i := range c.Ops {
